@@ -1,7 +1,7 @@
 (* C20 — property theorems.  Statements only: each is closed by [exact] of a lemma proved elsewhere.
    [E : env] stands for the expression parser/printer and the evaluation of transforms (C02/C03), arbitrary here.
    [put_ports] is the restore with the two proposed repairs (fixes/C20-*.diff); [put_ports_gen V] is either version. *)
-From QT Require Import C20.Lemmas C20.FlagsThm C20.PortsThm C20.OtherThm C20.AcceptThm C20.Example C20.Shape Gen.C20Gen C20.GenOk.
+From QT Require Import C20.Lemmas C20.FlagsThm C20.PortsThm C20.OtherThm C20.AcceptThm C20.Example C20.Shape Gen.C20Gen C20.GenOk C20.Endpoints Gen.C20EndpointsGen C20.EndpointsOk.
 Open Scope string_scope.
 Open Scope list_scope.
 Open Scope Z_scope.
@@ -92,6 +92,18 @@ Theorem C20_switches_guarded_in_source :
   /\ switches_untouched put_device_shape = true /\ switches_untouched put_peripherals_shape = true.
 Proof. exact restore_shapes_ok. Qed.
 Print Assumptions C20_switches_guarded_in_source.
+
+(* the whole hub: a complete backup is restored endpoint by endpoint in ascending `order` - the standard endpoints (/device 10,
+   /devices 15, /ports 20, ...: frontend/js/api/provisioning.js) merged with those the hub advertises (GET /backup/endpoints,
+   core/api/funcs/backup.py), both regenerated from /repo's working tree on every run.  C20_ports_roundtrip needs the target to have
+   the same non-virtual ports as the source when PUT /ports runs ([same_hardware]); the ports of peripherals and slave devices
+   exist only after PUT /peripherals and PUT /devices: with the orders written in the source those come before /ports. *)
+Theorem C20_port_creators_restored_before_ports :
+  sequence_ok (standard_endpoints ++ advertised_endpoints) = true
+  /\ restored_before "/peripherals" "/ports" (restore_sequence (standard_endpoints ++ advertised_endpoints)) = true
+  /\ restored_before "/devices" "/ports" (restore_sequence (standard_endpoints ++ advertised_endpoints)) = true.
+Proof. exact port_creators_restored_first. Qed.
+Print Assumptions C20_port_creators_restored_before_ports.
 
 (* ---- acceptance: an unaltered backup is never refused, so the round trip holds without the proviso "if accepted" ----
    [acceptable r E s1 s2] is a boolean test: every attribute value of the source lies in its domain, transforms refer to their
